@@ -21,7 +21,10 @@ TIERS = {
     "thorough": {"runs": 40000, "budget_s": 1500, "chunk": 12},
 }
 RULE = ("one evaluation = one seeded attribute-nested object graph (children 1-3 levels deep, names "
-        "repeated across levels) x skip set (names present/absent at any depth, or a list of types) "
+        "repeated across levels, same-named classes from a second module) x skip set (names "
+        "present/absent at any depth incl. names equal to properties/class attributes and "
+        "underscore twins, or a list of types incl. base classes, nested classes, abstract base "
+        "classes, NumPy abstract scalar types and NoneType; as bare str, list, tuple or set) "
         "x store x I/O schedule, run through the histories H0 save();load()  H1 save(skip=S);load()  "
         "H2 save();load(skip=S)  H3 save(skip=S1);load(skip=S2)  H4 H1 then save();load()  "
         "H5 save(skip=types);load(); every result is compared with the reference model "
